@@ -1,4 +1,125 @@
 import Ptn.C09.Model
-/-! Property theorems for C09. Only property theorems and non-vacuity examples live here. -/
+import Ptn.Common.AnalysisLocal
+/-! Property theorems for C09 (BUG): recursion order — children before parents, every node once,
+root last — for every tree; the conservation consequences are instances of the local-flow
+theorems of `Ptn.Analysis` (the final Galerkin step is an exact flow with an isometric embedding
+whose range contains the old state because every new basis contains the old one). -/
 namespace Ptn.C09
+
+mutual
+theorem Tree.updates_perm : (t : Tree) → t.updates.Perm t.ids
+  | .node id kids => by
+    simp only [Tree.updates, Tree.ids]
+    exact (List.perm_append_comm.trans (List.Perm.cons id (Forest.updates_perm kids)))
+theorem Forest.updates_perm : (f : Forest) → f.updates.Perm f.ids
+  | .nil => by simp [Forest.updates, Forest.ids]
+  | .cons t f => by
+    simp only [Forest.updates, Forest.ids]
+    exact List.Perm.append (Tree.updates_perm t) (Forest.updates_perm f)
+end
+
+/-- Every node is evolved exactly once per step (when identifiers are distinct). -/
+theorem updates_nodup (t : Tree) (h : t.ids.Nodup) : t.updates.Nodup :=
+  (List.Perm.nodup_iff (Tree.updates_perm t)).mpr h
+
+/-- The root is evolved last. -/
+theorem root_last (t : Tree) : t.updates.getLast? = some t.root := by
+  cases t with
+  | node id kids => simp [Tree.updates, Tree.root]
+
+mutual
+theorem Tree.root_mem_updates : (t : Tree) → t.root ∈ t.updates
+  | .node id kids => by simp [Tree.updates, Tree.root]
+end
+
+theorem Forest.roots_subset_updates : (f : Forest) → ∀ c ∈ f.roots, c ∈ f.updates
+  | .nil => by simp [Forest.roots]
+  | .cons t f => by
+    intro c hc
+    simp only [Forest.roots, List.mem_cons] at hc
+    simp only [Forest.updates, List.mem_append]
+    rcases hc with rfl | hc
+    · exact Or.inl (Tree.root_mem_updates t)
+    · exact Or.inr (Forest.roots_subset_updates f c hc)
+
+mutual
+/-- **Children before parents**: for every edge (p, c) of the tree, `c` is evolved strictly before
+    `p`: the update list splits as `… c … p …`. -/
+theorem Tree.child_before_parent : (t : Tree) → ∀ e ∈ t.edges,
+    ∃ l1 l2 l3, t.updates = l1 ++ [e.2] ++ l2 ++ [e.1] ++ l3
+  | .node id kids => by
+    intro e he
+    simp only [Tree.edges, List.mem_append, List.mem_map] at he
+    rcases he with ⟨c, hc, rfl⟩ | he
+    · have hmem := Forest.roots_subset_updates kids c hc
+      obtain ⟨a, b, hab⟩ := List.append_of_mem hmem
+      refine ⟨a, b, [], ?_⟩
+      simp [Tree.updates, hab]
+    · obtain ⟨l1, l2, l3, h⟩ := Forest.child_before_parent kids e he
+      refine ⟨l1, l2, l3 ++ [id], ?_⟩
+      simp [Tree.updates, h]
+theorem Forest.child_before_parent : (f : Forest) → ∀ e ∈ f.edges,
+    ∃ l1 l2 l3, f.updates = l1 ++ [e.2] ++ l2 ++ [e.1] ++ l3
+  | .nil => by simp [Forest.edges]
+  | .cons t f => by
+    intro e he
+    simp only [Forest.edges, List.mem_append] at he
+    rcases he with he | he
+    · obtain ⟨l1, l2, l3, h⟩ := Tree.child_before_parent t e he
+      exact ⟨l1, l2, l3 ++ f.updates, by simp [Forest.updates, h]⟩
+    · obtain ⟨l1, l2, l3, h⟩ := Forest.child_before_parent f e he
+      exact ⟨t.updates ++ l1, l2, l3, by simp [Forest.updates, h]⟩
+end
+
+mutual
+/-- The centre moves are exactly the tree edges, each once, parent → child. -/
+theorem Tree.moves_perm : (t : Tree) → t.moves.Perm t.edges
+  | .node id kids => by
+    simp only [Tree.moves, Tree.edges]
+    exact Forest.movesFrom_perm id kids
+theorem Forest.movesFrom_perm (p : Nat) : (f : Forest) →
+    (f.movesFrom p).Perm (f.roots.map (fun c => (p, c)) ++ f.edges)
+  | .nil => by simp [Forest.movesFrom, Forest.roots, Forest.edges]
+  | .cons t f => by
+    simp only [Forest.movesFrom, Forest.roots, Forest.edges, List.map_cons, List.cons_append]
+    apply List.Perm.cons
+    have h1 := Tree.moves_perm t
+    have h2 := Forest.movesFrom_perm p f
+    refine (List.Perm.append h1 h2).trans ?_
+    -- t.edges ++ (roots ++ f.edges) ~ roots ++ (t.edges ++ f.edges)
+    rw [← List.append_assoc, ← List.append_assoc]
+    exact List.Perm.append_right _ List.perm_append_comm
+end
+
+/-! ### Conservation consequences (instances of `Ptn.Analysis`) -/
+
+open Matrix in
+/-- Rank-adaptive BUG, Galerkin step at the root: with `E` the (isometric) embedding given by all
+    new bases and `K = EᴴHE`, evolving the root tensor with `exp(-i t K)` conserves the norm of the
+    represented state. -/
+theorem galerkin_conserves_norm {N d : Type} [Fintype N] [Fintype d] [DecidableEq N] [DecidableEq d]
+    (E : Matrix N d ℂ) (H : Matrix N N ℂ) (hE : Eᴴ * E = 1) (hH : Hᴴ = H) (t : ℝ) (φ : d → ℂ) :
+    star (E *ᵥ (NormedSpace.exp ((-Complex.I * t) • (Eᴴ * H * E)) *ᵥ φ)) ⬝ᵥ
+        (E *ᵥ (NormedSpace.exp ((-Complex.I * t) • (Eᴴ * H * E)) *ᵥ φ)) =
+      star (E *ᵥ φ) ⬝ᵥ (E *ᵥ φ) :=
+  Ptn.Analysis.local_flow_norm E H hE hH t φ
+
+open Matrix in
+/-- … and the energy. -/
+theorem galerkin_conserves_energy {N d : Type} [Fintype N] [Fintype d] [DecidableEq N] [DecidableEq d]
+    (E : Matrix N d ℂ) (H : Matrix N N ℂ) (hH : Hᴴ = H) (t : ℝ) (φ : d → ℂ) :
+    star (E *ᵥ (NormedSpace.exp ((-Complex.I * t) • (Eᴴ * H * E)) *ᵥ φ)) ⬝ᵥ
+        (H *ᵥ (E *ᵥ (NormedSpace.exp ((-Complex.I * t) • (Eᴴ * H * E)) *ᵥ φ))) =
+      star (E *ᵥ φ) ⬝ᵥ (H *ᵥ (E *ᵥ φ)) :=
+  Ptn.Analysis.local_flow_energy E H hH t φ
+
+/-! ### Non-vacuity: root 0 with children 1 (leaf) and 2 (with child 3) -/
+
+def exTree : Tree :=
+  .node 0 (.cons (.node 1 .nil) (.cons (.node 2 (.cons (.node 3 .nil) .nil)) .nil))
+
+example : exTree.updates = [1, 3, 2, 0] ∧ exTree.ids.Nodup := by decide
+example : exTree.edges = [(0, 1), (0, 2), (2, 3)] := by decide
+example : exTree.moves = [(0, 1), (0, 2), (2, 3)] := by decide
+
 end Ptn.C09
